@@ -1,3 +1,4 @@
+import DSV.FactsOK.SrcC13
 import DSV.Generated.Facts
 import DSV.EVM.IntEnc
 /-!
